@@ -137,6 +137,7 @@ class SessionManager:
         self.start_time = time.time()
         self._method_counts = defaultdict(int)
         self._reorg_count = 0
+        self._notified_reorg_count = 0
         self._history_cache = pylru.lrucache(1000)
         self._history_lookups = 0
         self._history_hits = 0
@@ -846,13 +847,16 @@ class SessionManager:
 
     async def _notify_sessions(self, height, touched):
         '''Notify sessions about height changes and touched addresses.'''
-        height_changed = height != self.notified_height
+        # A reorg can replace the tip without changing the height
+        height_changed = (height != self.notified_height
+                          or self._reorg_count != self._notified_reorg_count)
         if height_changed:
+            self._notified_reorg_count = self._reorg_count
             await self._refresh_hsub_results(height)
-            # Invalidate our history cache for touched hashXs
-            cache = self._history_cache
-            for hashX in set(cache).intersection(touched):
-                del cache[hashX]
+        # Invalidate our history cache for touched hashXs
+        cache = self._history_cache
+        for hashX in set(cache).intersection(touched):
+            del cache[hashX]
 
         async with TaskGroup() as group:
             for session in self.sessions:
